@@ -6,39 +6,44 @@ TEMPLATE = common.HEAD + common.STR_SHIMS + r'''
 //@TYPE CommandResult
 
 // The shell state: only the field this unit reads/writes is modelled; run_proc may change all of it.
-pub struct Shell { pub previous_status: i32 }
+pub struct Shell { pub previous_status: i32, pub exit_on_error: bool }
 
-// Ghost run log: one entry (command text, status) per run_proc call of this activation.
-pub ghost struct RunLog { pub log: Seq<(Seq<char>, int)> }
+// Ghost run log: one entry (command text, status, `set -e` in effect after it) per run_proc call of this activation.
+pub ghost struct RunLog { pub log: Seq<(Seq<char>, int, bool)> }
 
-// ---- specification taken from the property statement (C03) ------------------------------------
+// ---- specification taken from the property statements (C03; the stop rule of C15) ------------------------------------
 pub open spec fn is_op(t: Seq<char>) -> bool { t == ";"@ || t == "&&"@ || t == "||"@ }
 pub open spec fn skipped(sep: Seq<char>, status: int) -> bool {
     (sep == "&&"@ && status != 0) || (sep == "||"@ && status == 0)
 }
-// state after the first n list elements: (pending operator, status so far, next log position)
-pub open spec fn st(toks: Seq<Seq<char>>, log: Seq<(Seq<char>, int)>, j0: int, n: int) -> (Seq<char>, int, int)
+// C15: after `set -e` a failing pipeline that ends its and-or list (`;` or the end of the line follows) ends the line
+pub open spec fn stops(toks: Seq<Seq<char>>, n: int, e: (Seq<char>, int, bool)) -> bool {
+    e.1 != 0 && e.2 && (n == toks.len() || toks[n] == ";"@)
+}
+// state after the first n list elements: (pending operator, status so far, next log position, stopped by `set -e`)
+pub open spec fn st(toks: Seq<Seq<char>>, log: Seq<(Seq<char>, int, bool)>, j0: int, n: int) -> (Seq<char>, int, int, bool)
     decreases n
 {
-    if n <= 0 { (Seq::<char>::empty(), 0int, j0) } else {
+    if n <= 0 { (Seq::<char>::empty(), 0int, j0, false) } else {
         let p = st(toks, log, j0, n - 1);
         let t = toks[n - 1];
-        if is_op(t) { (t, p.1, p.2) }
+        if p.3 { p }
+        else if is_op(t) { (t, p.1, p.2, false) }
         else if skipped(p.0, p.1) { p }
-        else { (p.0, log[p.2].1, p.2 + 1) }
+        else { (p.0, log[p.2].1, p.2 + 1, stops(toks, n, log[p.2])) }
     }
 }
 // every pipeline that had to run did run, at its position, with its own text
-pub open spec fn ran_ok(toks: Seq<Seq<char>>, log: Seq<(Seq<char>, int)>, j0: int, n: int) -> bool
+pub open spec fn ran_ok(toks: Seq<Seq<char>>, log: Seq<(Seq<char>, int, bool)>, j0: int, n: int) -> bool
     decreases n
 {
     n <= 0 || (ran_ok(toks, log, j0, n - 1) && {
         let p = st(toks, log, j0, n - 1);
         let t = toks[n - 1];
-        is_op(t) || skipped(p.0, p.1) || (0 <= p.2 < log.len() && log[p.2].0 == t)
+        p.3 || is_op(t) || skipped(p.0, p.1) || (0 <= p.2 < log.len() && log[p.2].0 == t)
     })
 }
-pub proof fn lemma_st_ext(toks: Seq<Seq<char>>, l1: Seq<(Seq<char>, int)>, l2: Seq<(Seq<char>, int)>, j0: int, n: int)
+pub proof fn lemma_st_ext(toks: Seq<Seq<char>>, l1: Seq<(Seq<char>, int, bool)>, l2: Seq<(Seq<char>, int, bool)>, j0: int, n: int)
     requires
         0 <= j0, 0 <= n <= toks.len(), l1.len() <= l2.len(),
         forall|k: int| 0 <= k < l1.len() ==> l1[k] == l2[k],
@@ -49,6 +54,14 @@ pub proof fn lemma_st_ext(toks: Seq<Seq<char>>, l1: Seq<(Seq<char>, int)>, l2: S
     decreases n
 {
     if n > 0 { lemma_st_ext(toks, l1, l2, j0, n - 1); }
+}
+// once stopped, nothing more is required and nothing more is counted
+pub proof fn lemma_stopped_sticky(toks: Seq<Seq<char>>, log: Seq<(Seq<char>, int, bool)>, j0: int, n: int, m: int)
+    requires 0 <= n <= m, st(toks, log, j0, n).3, ran_ok(toks, log, j0, n),
+    ensures st(toks, log, j0, m) == st(toks, log, j0, n), ran_ok(toks, log, j0, m),
+    decreases m - n
+{
+    if n < m { lemma_stopped_sticky(toks, log, j0, n, m - 1); }
 }
 
 // ---- externals ----------------------------------------------------------------------------------
@@ -63,7 +76,7 @@ pub fn line_to_cmds(line: &str) -> (r: Vec<String>)
 // run_proc runs one pipeline: any status, any effect on the shell; it is logged exactly once.
 #[verifier::external_body]
 pub fn run_proc(sh: &mut Shell, line: &str, tty: bool, capture: bool, Tracked(lg): Tracked<&mut RunLog>) -> (cr: CommandResult)
-    ensures final(lg).log == old(lg).log.push((line@, cr.status as int)),
+    ensures final(lg).log == old(lg).log.push((line@, cr.status as int, final(sh).exit_on_error)),
 { unimplemented!() }
 
 //@FN run_command_line
@@ -73,11 +86,10 @@ run_command_line = Fn(
     'src/execute.rs', 'run_command_line', ret='r',
     add_params='Tracked(lg): Tracked<&mut RunLog>',
     ghost_args={'run_proc': 'Tracked(lg)'},
-    loop_kinds={0: 'value'},
     let_types={'cr_list': 'Vec<CommandResult>'},
     ensures=[
-        # C03: left to right, short-circuit, skip-and-continue, everything after `;` runs
-        ('C03.list_semantics',
+        # C03: left to right, short-circuit, skip-and-continue, everything after `;` runs -- unless (C15) a pipeline failed under `set -e` at the end of its and-or list
+        ('C03+C15.list_semantics',
          'ran_ok(spec_line_to_cmds(line@), final(lg).log, old(lg).log.len() as int, spec_line_to_cmds(line@).len() as int) '
          '&& st(spec_line_to_cmds(line@), final(lg).log, old(lg).log.len() as int, spec_line_to_cmds(line@).len() as int).2 == final(lg).log.len()'),
         ('C03.log_grows', 'old(lg).log.len() <= final(lg).log.len() && '
@@ -89,17 +101,26 @@ run_command_line = Fn(
          'forall|k: int| 0 <= k < r@.len() ==> r@[k].status == #[trigger] final(lg).log[old(lg).log.len() + k].1'),
     ],
     loops={0: Loop(invariant=[
+        ('C03.inv.cmds', 'strs(cmds@) == spec_line_to_cmds(line@)'),
         ('C03.inv.prefix', 'old(lg).log.len() <= lg.log.len() && forall|k: int| 0 <= k < old(lg).log.len() ==> lg.log[k] == old(lg).log[k]'),
-        ('C03.inv.ran_ok', 'ran_ok(strs(__v0@), lg.log, old(lg).log.len() as int, __i0 as int)'),
-        ('C03.inv.state', 'st(strs(__v0@), lg.log, old(lg).log.len() as int, __i0 as int) == (sep@, status as int, lg.log.len() as int)'),
+        ('C03.inv.ran_ok', 'ran_ok(strs(cmds@), lg.log, old(lg).log.len() as int, __i0 as int)'),
         ('C03.inv.prev', 'lg.log.len() > old(lg).log.len() ==> sh.previous_status == lg.log.last().1 && status == lg.log.last().1'),
         ('C03.inv.results', 'cr_list@.len() == lg.log.len() - old(lg).log.len() && '
          'forall|k: int| 0 <= k < cr_list@.len() ==> cr_list@[k].status == #[trigger] lg.log[old(lg).log.len() + k].1'),
+    ], invariant_except_break=[
+        ('C03+C15.inv.state', 'st(strs(cmds@), lg.log, old(lg).log.len() as int, __i0 as int) == (sep@, status as int, lg.log.len() as int, false)'),
+    ], ensures=[
+        # the loop is left at the end of the list, or (C15) right after a pipeline that failed under `set -e` at the end of its and-or list
+        ('C03+C15.loop_left_at_the_end_or_at_the_stop_rule',
+         '__i0 <= cmds@.len() && st(strs(cmds@), lg.log, old(lg).log.len() as int, __i0 as int).2 == lg.log.len() '
+         '&& (__i0 == cmds@.len() || st(strs(cmds@), lg.log, old(lg).log.len() as int, __i0 as int).3)'),
     ])},
     hints={
-        'loop-0-body-entry': 'assert(strs(__v0@)[__i0 as int] == __v0@[__i0 as int]@);',
+        'loop-0-body-entry': 'assert(strs(cmds@)[__i0 as int] == cmds@[__i0 as int]@); reveal_strlit(";"); '
+                             'if __i0 + 1 < cmds@.len() { assert(strs(cmds@)[__i0 + 1] == cmds@[__i0 + 1]@); }',
         'before-call:run_proc': 'RAW: let ghost __l1 = lg.log;',
-        'after-call:run_proc': 'lemma_st_ext(strs(__v0@), __l1, lg.log, old(lg).log.len() as int, (__i0 - 1) as int);',
+        'after-call:run_proc': 'lemma_st_ext(strs(cmds@), __l1, lg.log, old(lg).log.len() as int, (__i0 - 1) as int);',
+        'loop-0-exit': 'if __i0 < cmds@.len() { lemma_stopped_sticky(strs(cmds@), lg.log, old(lg).log.len() as int, __i0 as int, cmds@.len() as int); }',
     },
 )
 
